@@ -219,15 +219,32 @@ CHECKS = {
 
 
 def replay(pid, path, work, rep):
+    """Re-run the recorded case of a replay file through the same pipeline (harness + TLC trace spec)."""
     doc = json.load(open(path))
-    b = build("dev")
-    cases = work.path("replay.ndjson")
-    with open(cases, "w") as f:
-        f.write(json.dumps(doc["case"]) + "\n")
-    res = stage_cases(rep, work, b, cases, "replay", spec=doc.get("spec", "Trace_Load"), shards=1, jvms=1)
+    stage = doc.get("stage", "")
     rep.final = dict(rule="replay of one recorded case", trusted=TRUSTED)
     rep.cov["distinct_nontrivial"] = 1
-    return rep.finish(**rep.final)
+    if "driver" in doc and "case" in doc:
+        # cuts / readers / util drivers
+        b = build("dev")
+        cases = work.path("replay.ndjson")
+        with open(cases, "w") as f:
+            f.write(json.dumps(doc["case"]) + "\n")
+        driver_stage(rep, work, b, doc["driver"], cases, "replay", doc.get("args", []), spec=doc.get("spec", "Trace_Read"), shards=1)
+    elif "blend" in doc:
+        b = build("relchk")
+        blend_stage(rep, work, b, doc["blend"]["stratum"], doc.get("seed", 1), doc.get("n", 60000), BLEND_C03 | BLEND_C17, modes=doc["blend"].get("modes"))
+    elif "case" in doc and ("prog" in doc["case"] or "hex" in doc["case"] or "file" in doc["case"]):
+        b = build("relchk" if "relchk" in stage else "dev")
+        cases = work.path("replay.ndjson")
+        with open(cases, "w") as f:
+            f.write(json.dumps(doc["case"]) + "\n")
+        stage_cases(rep, work, b, cases, "replay", spec=doc.get("spec", "Trace_Load"), shards=1, jvms=1, env={"ASEVER_ALLOC_CAP": ALLOC_CAP})
+    else:
+        # no single recorded input (threads, profile pairs, compile probe): re-run the property's quick check
+        fn, _ = CHECKS[pid]
+        fn(rep, work, "quick", doc.get("seed", 1))
+    return rep.finish(write_evidence=False, **rep.final)
 
 
 # ------------------------------------------------------------------------------------------
@@ -374,6 +391,10 @@ def c09(rep, work, tier, seed):
         rep.error(f"exported {n} programs for {states} model states")
     rep.sample(first_cases(cases, 300)[-1])
     res = batched_stage(rep, work, b, cases, "forest", batch=40000)
+    os.remove(out)
+    if tier != "quick":
+        # one more layer on the model alone (no replay): 2.8 M forests x flag vectors
+        mc_run(rep, work, "MC_Forest", {"MaxLayers": 9, "ImageLayers": 6}, ["ForestInv"], workers=12, name="MC_Forest9", timeout=3000)
     # deep forests beyond the exhaustive bound (G3-style, depth up to 200)
     deep = work.path("deep.ndjson")
     import random
@@ -407,6 +428,10 @@ def c10(rep, work, tier, seed):
     rep.sample(first_cases(cases, 2000)[-1])
     res = batched_stage(rep, work, b, cases, "ud", batch=60000)
     need_ok(rep, res, "ud", 0.99)
+    os.remove(out)
+    if tier != "quick":
+        # one chunk more on the model alone (no replay)
+        mc_run(rep, work, "MC_UD", {"MaxLen": maxlen + 1}, ["UDOwnerInv", "NoStrayInv", "AcceptedInv", "IgnoredStutterInv"], workers=12, name="MC_UD8", timeout=3000)
     # random sprites with user data on layers, cels in all frames, slices, tags and the sprite (incl. empty records)
     g3 = work.path("g3.ndjson")
     gen(b, g3, "struct", seed + 21, 300 if tier == "quick" else 6000)
@@ -539,7 +564,7 @@ def mc_load_stage(rep, work, b, tier, depths=(32, 8)):
     maxlen = 3 if tier == "quick" else 4
     tot = [0, 0, 0, 0]
     for depth in depths:
-        out, states = mc_run(rep, work, "MC_Load", {"MaxLen": maxlen, "Depth": depth}, ["FoldInv", "RenderDefinedInv", "CelOrderInv", "Export"],
+        out, states = mc_run(rep, work, "MC_Load", {"MaxLen": maxlen, "Depth": depth}, ["FoldInv", "RenderDefinedInv", "CelOrderInv", "RoundTripInv", "Export"],
                              workers=10, name=f"MC_Load{depth}")
         cases = work.path(f"mcload{depth}.ndjson")
         n = write_cases(cases, ({"id": f"mcload{depth}-{i}", "mode": "full", "meta": {"gen": "g1", "model": "MC_Load", "spec_outcome": d["outcome"]}, "prog": d["prog"]}
@@ -561,7 +586,7 @@ def predicted_faults_stage(rep, work, b, tier, seed, nseeds=None):
     every field of the encoder's field table is set to each boundary value, the patched bytes travel in the trace, and TLC
     decodes them (AseParse!Decode), loads the decoded program (AseLoad) and demands: outcome ok -> the file loads and the
     complete observation matches; err -> an error value; either/unknown -> no crash and, if it loads, a usable sprite."""
-    n = nseeds or (3 if tier == "quick" else 40)
+    n = nseeds or (3 if tier == "quick" else 16)
     seeds = work.path("pseeds.ndjson")
     r = subprocess.run([b, "gen", "--profile", "default", "--seed", str(seed + 41), "--n", str(n), "--stored", "--out", seeds], capture_output=True, text=True)
     if r.returncode != 0:
